@@ -306,6 +306,45 @@ CLAIMED = {
             "CPython/hashlib; the executable Lean SHA-256 is validated against hashlib by the same correspondence. "
             "Lengths >= 2^32 (9-byte prefixes) are covered by the theorems only.",
             "§5 C03"),
+    "C20": ("proof",
+        "Lean 4 theorems over all thread counts, program lengths and schedules of a locking-protocol model (serialisability, "
+        "no deadlock) + probe-based translator for the binding layer's lock/buffer facts (decide +kernel obligations over "
+        "the generated table) + deterministic-scheduler correspondence on real threads",
+        "PARTIAL (the GIL, ctypes and the C library are outside the model). "
+        "PROVED (Props/C20.lean, unbounded: any number of threads, programs of any length, every schedule = every list of "
+        "thread ids, i.e. any preemptions): in the abstract locking protocol — one non-reentrant lock, one shared library "
+        "context, native calls that take two scheduler ticks (ctypes releases the GIL), buffers private to a thread or "
+        "shared by everybody — a thread that makes native calls only while holding the lock and whose out-buffers are "
+        "private (or, if shared, read only inside the lock hold that wrote them) obtains after ANY schedule exactly the "
+        "results of the executed part of its program run alone (results_prefix, results_alone, solo_is_run_alone); every "
+        "complete schedule gives the results of the serial execution (serialisable, serialisable_of_facts), the serial "
+        "schedule completes (serial_completes) and every schedule prefix can be continued to completion (can_always_finish: "
+        "no deadlock). Witness theorems show that each hypothesis is needed: a shared out-buffer read after the release "
+        "(the schedule T0: rewind…release; T1: rewind…release; T0: copy), its sequential aliasing, and a native call "
+        "outside the lock each break serialisability in the model. "
+        "EXTRACTED ON EVERY RUN (translator tie, harness/bindprobe.py -> Generated/BindingFacts.lean): every function of the "
+        "LOADED embit.util.ctypes_secp256k1 that reaches native code (54 function/argument-variant records, `_init`, and the "
+        "module import itself in a fresh interpreter) is called with `_lock` replaced by a recording lock and `_secp` by a "
+        "recording proxy; recorded: native symbols, lock held at each native call, which buffers C wrote, whether a buffer "
+        "is fresh / the caller's argument / shared (code constant, global, default, or the same object again in the next "
+        "call), whether the result still depends on a buffer after the release; `ast` only cross-checks that every "
+        "`_secp.<symbol>(…)` call site was executed. Props/C20Facts.lean decides over these facts (decide +kernel, no "
+        "axioms): all_probed, facts_consistent, every_entry_locked (the property's second sentence), buffers_fresh, "
+        "buffers_private_or_copied, no_reentrant_acquire, and combines them with the protocol theorem: "
+        "binding_serialisable (programs of probed binding functions, any threads / lengths / complete schedules). "
+        "ONLY OBSERVED (harness/sched.py, real threads, real libsecp256k1): 2-3 threads under a deterministic cooperative "
+        "scheduler (sys.settrace line events in the binding module and its immediate callers ec.py, bip32.py, misc.py, "
+        "liquid/pset.py, liquid/transaction.py; `_lock` replaced by a cooperative lock) executing direct binding calls, "
+        "embit.ec key/ECDSA/Schnorr/tweak/x-only/ECDH operations, Liquid unblinding of the recorded PSET's inputs and "
+        "blinded outputs, PSET blinding, on thread-private inputs: one preemption of thread 0 at EVERY traced line (sweeps) "
+        "and seeded samples with 2-3 preemptions among 3 threads; each thread's results are compared with the serial run "
+        "and, for direct binding calls, with the Lean model's prediction for the same schedule (lock.run); every native "
+        "call observed must be under the lock. Not covered by anything: data races inside C when the lock is missing "
+        "(only the missing lock itself is reported), preemption inside a bytecode line, MicroPython.",
+        "Trusted: Lean kernel + propext/Quot.sound/Classical.choice; harness/bindprobe.py (recording lock and library proxy, "
+        "write detection by snapshots, origin classification) and harness/sched.py (settrace scheduler); CPython, ctypes, "
+        "libsecp256k1. The GIL and C-level races are outside the model.",
+        "§5 C20"),
 }
 
 NOT_YET = "not yet built in this round (design in DESIGN.md §5); no claim is made"
